@@ -93,6 +93,10 @@ def planted():
            ("well-formed", None, "LOCATIONS after an optional and a group"))
     yield "begin: NAME\n", ("no_start", None, "grammar")
     yield "@trailer 'pass'\nbegin: NAME\n", ("well-formed", None, "trailer")
+    # a trailer meta without a value / with an empty value still means "the grammar brings its own entry point": accepted
+    # without a start rule, and then NO default trailer (whose main() calls start()) may be emitted
+    yield "@trailer\nbegin: NAME\n", ("well-formed", None, "bare trailer")
+    yield "@trailer ''\nbegin: NAME\n", ("well-formed", None, "empty trailer")
 
 
 def crash_of(result: dict) -> str | None:
@@ -189,6 +193,20 @@ def run(chk: common.Check, tier: str):
             chk.violation(f"well-formed grammar refused: {res}", desc, True)
         if res[0] == "other":
             chk.violation(f"construction failed with something else than a grammar error: {res[1]}", desc, True)
+        if res[0] == "ok" and "start" not in g.rules:
+            # accepted without a start rule because it brings a trailer meta (even an empty one): the module generated
+            # for it must not fall back to the default main program, whose simple_parser_main() calls start()
+            out = io.StringIO()
+            try:
+                PythonParserGenerator(g2c.read_grammar(text), out).generate("<grammar>")
+                chk.count()
+                if "simple_parser_main" in out.getvalue():
+                    chk.violation("a grammar accepted without a start rule (it has a trailer meta) is given the default main "
+                                  "program, which calls start(): AttributeError when the generated module is run",
+                                  dict(desc, how="PythonParserGenerator(g, out).generate('<grammar>'); the emitted text ends in "
+                                       "simple_parser_main(GeneratedParser) although no method start exists"), True)
+            except Exception as e:      # noqa
+                chk.violation(f"generation fails for an accepted grammar: {type(e).__name__}: {e}", desc, True)
         if res[0] == "ok" and "start" in g.rules and (kind == "well-formed" or (kind == "random" and r.random() < 0.5)):
             to_run.append((text, desc))
         if res[0] in ("other",):
